@@ -1001,26 +1001,34 @@ type cpuPat struct {
 	pat  string
 	unit string // the subject is unit repeated n times
 	ns   []int
+	name string // short spelling of pat for keys ("" = pat itself)
+}
+
+func (c cpuPat) key() string {
+	if c.name != "" {
+		return c.name
+	}
+	return strconv.Quote(c.pat)
 }
 
 var cpuPats = []cpuPat{
-	{"a*a*a*b", "a", []int{0, 5, 10, 20, 40, 80}},
-	{"a-a-a-b", "a", []int{0, 5, 10, 20, 40, 80}},
-	{"(a*)(a*)(a*)b", "a", []int{0, 5, 10, 20, 40}},
-	{".-.-.-x", "ab", []int{0, 5, 10, 20, 40}},
-	{"a?a?a?a?a?a?a?a?a?a?a?a?b", "a", []int{0, 2, 4, 6, 8, 10, 12}},
-	{"[ab]*[ab]*[ab]*c", "ab", []int{0, 5, 10, 20, 40}},
-	{"%f[a]a*a*a*%f[b]", "a", []int{0, 5, 10, 20, 40}},
-	{"(a+)a*%1b", "a", []int{0, 5, 10, 20, 40}},
-	{"%b()", "(", []int{0, 50, 100, 200, 400}},
-	{"a*", "a", []int{0, 50, 100, 200, 400}},
-	{"b", "a", []int{0, 250, 500, 1000, 2000}},
-	{"b*", "a", []int{0, 250, 500, 1000, 2000}},
-	{"()", "a", []int{0, 250, 500, 1000, 2000}},
-	{"%f[b]", "a", []int{0, 250, 500, 1000, 2000}},
-	{strings.Repeat("b?", 40) + "c", "a", []int{0, 50, 100, 200, 400}},
-	{strings.Repeat("b-", 40) + "c", "a", []int{0, 50, 100, 200, 400}},
-	{strings.Repeat("()", 9) + strings.Repeat("%f[a]", 40) + "c", "a", []int{0, 50, 100, 200, 400}},
+	{"a*a*a*b", "a", []int{0, 5, 10, 20, 40, 80}, ""},
+	{"a-a-a-b", "a", []int{0, 5, 10, 20, 40, 80}, ""},
+	{"(a*)(a*)(a*)b", "a", []int{0, 5, 10, 20, 40}, ""},
+	{".-.-.-x", "ab", []int{0, 5, 10, 20, 40}, ""},
+	{"a?a?a?a?a?a?a?a?a?a?a?a?b", "a", []int{0, 2, 4, 6, 8, 10, 12}, ""},
+	{"[ab]*[ab]*[ab]*c", "ab", []int{0, 5, 10, 20, 40}, ""},
+	{"%f[a]a*a*a*%f[b]", "a", []int{0, 5, 10, 20, 40}, ""},
+	{"(a+)a*%1b", "a", []int{0, 5, 10, 20, 40}, ""},
+	{"%b()", "(", []int{0, 50, 100, 200, 400}, ""},
+	{"a*", "a", []int{0, 50, 100, 200, 400}, ""},
+	{"b", "a", []int{0, 250, 500, 1000, 2000}, ""},
+	{"b*", "a", []int{0, 250, 500, 1000, 2000}, ""},
+	{"()", "a", []int{0, 250, 500, 1000, 2000}, ""},
+	{"%f[b]", "a", []int{0, 250, 500, 1000, 2000}, ""},
+	{strings.Repeat("b?", 40) + "c", "a", []int{0, 50, 100, 200, 400}, `"b?"x40+"c"`},
+	{strings.Repeat("b-", 40) + "c", "a", []int{0, 50, 100, 200, 400}, `"b-"x40+"c"`},
+	{strings.Repeat("()", 9) + strings.Repeat("%f[a]", 40) + "c", "a", []int{0, 50, 100, 200, 400}, `"()"x9+"%f[a]"x40+"c"`},
 }
 
 var cpuOps = []string{"find", "match", "gmatch", "gsub"}
@@ -1077,7 +1085,7 @@ func checkCPU(i uint64, a *acc) {
 		used[j] = o.UsedCPU
 		if o.Status != "ok" {
 			n := n
-			a.fail("big", fmt.Sprintf("cpu op=%s pat=%q unit=%q n=%d limit=none clause=status", op, cp.pat, cp.unit, n), func() string {
+			a.fail("big", fmt.Sprintf("cpu op=%s pat=%s unit=%q n=%d limit=none clause=status", op, cp.key(), cp.unit, n), func() string {
 				return fmt.Sprintf("string.%s on %q x %d with a huge CPU limit: %s", op, cp.unit, n, o)
 			})
 			if o.Status != "err" {
@@ -1086,8 +1094,24 @@ func checkCPU(i uint64, a *acc) {
 			}
 			continue
 		}
+		if op == "find" || op == "match" {
+			x := p.On(s)
+			want := x.Find(1)
+			if op == "match" {
+				want = x.Match(1)
+			}
+			ws := make([]string, len(want))
+			for i, w := range want {
+				ws[i] = w.Canon()
+			}
+			if strings.Join(ws, ",") != strings.Join(o.Results, ",") {
+				a.fail("result", fmt.Sprintf("cpu op=%s pat=%s unit=%q n=%d limit=none clause=result", op, cp.key(), cp.unit, n), func() string {
+					return fmt.Sprintf("string.%s(%q x %d, %q): expected %s, observed %s", op, cp.unit, n, cp.pat, showRef(want), o)
+				})
+			}
+		}
 		if o.UsedCPU == 0 {
-			a.fail("zero", fmt.Sprintf("cpu op=%s pat=%q unit=%q n=%d limit=none clause=used-zero", op, cp.pat, cp.unit, n), func() string {
+			a.fail("zero", fmt.Sprintf("cpu op=%s pat=%s unit=%q n=%d limit=none clause=used-zero", op, cp.key(), cp.unit, n), func() string {
 				return fmt.Sprintf("string.%s on %q x %d inside a CPU limited context reports UsedCPU = 0", op, cp.unit, n)
 			})
 		}
@@ -1096,7 +1120,7 @@ func checkCPU(i uint64, a *acc) {
 			a.evals++
 			a.mixS(fmt.Sprint(o.Status, o.UsedCPU))
 			key := func(cl string) string {
-				return fmt.Sprintf("cpu op=%s pat=%q unit=%q n=%d limit=%d clause=%s", op, cp.pat, cp.unit, n, k, cl)
+				return fmt.Sprintf("cpu op=%s pat=%s unit=%q n=%d limit=%d clause=%s", op, cp.key(), cp.unit, n, k, cl)
 			}
 			det := func() string {
 				return fmt.Sprintf("string.%s(%q x %d, %q) under {cpu=%d}: status %s, UsedCPU %d (UsedCPU with a huge limit: %d; reference matcher steps: %d)\n%s",
@@ -1125,7 +1149,7 @@ func checkCPU(i uint64, a *acc) {
 	// charged must grow at all.
 	last := len(cp.ns) - 1
 	if work[last] >= work[0]+1000 && used[last] <= used[0] {
-		a.fail("unmetered", fmt.Sprintf("cpu op=%s pat=%q unit=%q clause=unmetered", op, cp.pat, cp.unit), func() string {
+		a.fail("unmetered", fmt.Sprintf("cpu op=%s pat=%s unit=%q clause=unmetered", op, cp.key(), cp.unit), func() string {
 			return fmt.Sprintf("string.%s(%q x n, %q): n=%v reference matcher steps=%v but UsedCPU=%v: the work is not charged",
 				op, cp.unit, cp.pat, cp.ns, work, used)
 		})
@@ -1143,9 +1167,9 @@ type bounds struct {
 
 func boundsFor(tier string) bounds {
 	if tier == "thorough" {
-		return bounds{tok: 3, subj: 5, tok2: 2, subj2: 7, tok3: 4, subj3: 4, curSubj: 6, plain: 5}
+		return bounds{tok: 3, subj: 5, tok2: 2, subj2: 6, tok3: 4, subj3: 3, curSubj: 6, plain: 5}
 	}
-	return bounds{tok: 3, subj: 3, tok2: 2, subj2: 5, curSubj: 5, plain: 4}
+	return bounds{tok: 3, subj: 3, tok2: 2, subj2: 5, curSubj: 4, plain: 4}
 }
 
 // tune: every library call allocates a few small objects on a tiny live heap,
@@ -1181,8 +1205,21 @@ func main() {
 			b := boundsFor(tier)
 			var fams []*core.Family
 			tokFam := func(name string, maxTok, maxLen int, goapi bool) {
+				// On an idle 16 core box every family ends well inside its
+				// budget; the caps bound the worst case of a loaded box to the
+				// tier budget (a capped family is reported exhaustive:false).
+				budget := 300
+				if goapi {
+					budget = 100
+				}
+				if tier != "thorough" {
+					budget = 80
+					if goapi {
+						budget = 40
+					}
+				}
 				fams = append(fams, &core.Family{
-					Name: name, Size: nSeq(maxTok), BudgetSeconds: 900,
+					Name: name, Size: nSeq(maxTok), BudgetSeconds: budget,
 					Run: func(i uint64) core.Outcome {
 						pat := seqPattern(i)
 						a := newAcc()
